@@ -455,7 +455,7 @@ class JSONPointer:
 RE_INDEX = re.compile(r"0|-?[1-9][0-9]*")
 
 RE_RELATIVE_POINTER = re.compile(
-    r"(?P<ORIGIN>\d+)(?P<INDEX_G>(?P<SIGN>[+\-])(?P<INDEX>\d))?(?P<POINTER>.*)",
+    r"(?P<ORIGIN>\d+)(?P<INDEX_G>(?P<SIGN>[+\-])(?P<INDEX>\d+))?(?P<POINTER>.*)",
     re.DOTALL,
 )
 
